@@ -320,7 +320,7 @@ class Verifier(ExprMixin, StmtMixin, CallMixin, LibMixin, SpecMixin):
                 o.note += " [solver: %s]" % r.get("reason", "")
         o.trace = list(st.trace[-12:])
         self.obligations.append(o)
-        st.assume(goal)  # assume-after-assert: one failure does not cascade
+        st.assume(goal, derived=(o.verdict == "unsat"))  # assume-after-assert: one failure does not cascade
 
     def oblige_isolated(self, st, kind, node, hyps, goal, note):
         """An obligation whose only hypotheses are `hyps` (not the path condition); goal is assumed on the state afterwards."""
@@ -337,7 +337,7 @@ class Verifier(ExprMixin, StmtMixin, CallMixin, LibMixin, SpecMixin):
             self.degraded = True
         o.trace = list(st.trace[-12:])
         self.obligations.append(o)
-        st.assume(goal)
+        st.assume(goal, derived=(o.verdict == "unsat"))
 
     def model_input(self, model):
         """Concrete values of the function's parameters in the counter-model (bounded read-out)."""
